@@ -14,6 +14,12 @@
 (b) `wrap.Resolver.resolve` (real code, in-process) on local fixtures with every corruption class at each
     acquisition location and a fault at each step, against the Lean step machine
     `MesonModel.DepPolicy.Wrap.resolve` and the three wrap clauses evaluated on what really happened.
+(d) the wrap-*file* layer (`harness/c10_wrapfile.py`): generated `subprojects/` trees read by the real `wrap.Resolver`
+    (`load_wraps`, `add_wrap`, `[wrap-redirect]`, `load_and_merge`, `find_dep_provider`, `get_varname`,
+    `find_program_provider`) against the Lean model `MesonModel.DepPolicy.WrapFile` (same file texts, same listing order)
+    and against the clauses of the Wrap manual read directly (provider table is a function or the load raises; implicit
+    provide; programs; existing entries win on merge); then lookups of (a) over the *real* Resolver loaded from generated
+    wrap files instead of the stub tables.
 Thorough tier adds end-to-end `meson setup --backend=none` runs.
 
 Readings of the documents where they are silent (kept identical in the Lean `policy`):
@@ -52,6 +58,7 @@ from .common import Ctx
 from . import c10_dep as D
 from . import c10_wrap as WR
 from . import c10_cache as CA
+from . import c10_wrapfile as WF
 
 ID = 'C10'
 LEVEL = 'proof'
@@ -75,6 +82,15 @@ PINS = [
     'mesonbuild.wrap.wrap:Resolver.find_dep_provider',
     'mesonbuild.wrap.wrap:Resolver.get_varname',
     'mesonbuild.wrap:WrapMode',
+    'mesonbuild.wrap.wrap:WrapType',
+    'mesonbuild.wrap.wrap:PackageDefinition',
+    'mesonbuild.wrap.wrap:Resolver.load_wraps',
+    'mesonbuild.wrap.wrap:Resolver.add_wrap',
+    'mesonbuild.wrap.wrap:Resolver.load_wrapdb',
+    'mesonbuild.wrap.wrap:Resolver.merge_wraps',
+    'mesonbuild.wrap.wrap:Resolver.load_and_merge',
+    'mesonbuild.wrap.wrap:Resolver.find_program_provider',
+    'mesonbuild.wrap.wrap:Resolver.get_directory',
     'mesonbuild.interpreter.mesonmain:MesonMain.override_dependency_method',
     'mesonbuild.interpreter.mesonmain:MesonMain._override_dependency_impl',
     'mesonbuild.dependencies.detect:get_dep_identifier',
@@ -90,6 +106,10 @@ TRUSTED = [
     'version constraints are abstract in the theorems (any `sat`); the driver instantiates them with the C19 model',
     'domain: lower-case ASCII dependency names; wrap-file wraps only (git/hg/svn and real network not modelled); '
     'faults are exceptions (not process kills)',
+    'wrap-file layer: ASCII wrap files with \\n line ends and no continuation lines (the model answers `unsupported` for a non-blank, '
+    'non-comment line that starts with white space; such cases are skipped), redirect targets are relative, no Cargo.lock; '
+    'configparser (CPython 3.12 RawConfigParser._read) is modelled on that grammar, its errors are one class; directory listings are '
+    'passed to the model in the order os.walk returned them',
 ]
 
 NPROC = min(16, os.cpu_count() or 4)
@@ -640,6 +660,85 @@ def run_wrap(ctx: Ctx) -> None:
 
 def gen_tables(ctx: Ctx) -> None:
     CA.gen_table_file(ctx)
+    WF.gen_table_file(ctx)
+
+
+# ------------------------------------------------------------------------------------------ (d) wrap files -> provider tables
+
+def wf_chunk(cases):
+    return WF.eval_chunk(cases)
+
+
+def run_wrapfiles(ctx: Ctx) -> None:
+    """generated subprojects/ trees read by the real wrap.Resolver against the Lean model of the wrap-file layer and the
+    clauses of the manual; then lookups whose [provide] tables are the real Resolver over generated wrap files"""
+    rng = ctx.rng
+    cases = WF.structured_cases()
+    n_struct = len(cases)
+    n = 12000 if ctx.tier == 'thorough' else ctx.scale(900, 3000)
+    cases += [WF.plain_case(rng) if k % 2 == 0 else WF.odd_case(rng) for k in range(n)]
+    results = [x for part in pool_map(wf_chunk, cases, 100) for x in part]
+    ctx.count(len(cases))
+    ctx.extra['wrapfile_cases_structured'] = n_struct
+    ctx.extra['wrapfile_cases_random'] = len(cases) - n_struct
+    for c, (canon, hits, _line) in zip(cases, results):
+        ctx.tag('wrapfile:' + ('ok' if canon.startswith('ok~') else canon.split('~')[0]))
+        if c.get('decl') is not None:
+            ctx.tag('wrapfile:plain')
+        if c.get('merges'):
+            ctx.tag('wrapfile:merged')
+        for cls, msg in hits:
+            case = {'kind': 'wrapfile', 'case': c}
+            ctx.violation(vkey(cls, case), f'{cls}: {msg}', case)
+    if ctx.model_available:
+        answers = ctx.driver('dep', [r[2] for r in results])
+        for c, (canon, _h, _line), ans in zip(cases, results, answers):
+            if ans in ('ERR:unsupported', 'MERR:unsupported'):
+                ctx.tag('wrapfile:outside-modelled-grammar')
+                continue
+            if canon != ans:
+                ctx.disagreement({'kind': 'wrapfile', 'case': c, 'impl': canon, 'model': ans})
+            ctx.seen_nontrivial(('wrapfile', ans.split('~')[0], ans.split('~')[2] if ans.count('~') >= 2 else ''))
+    for c in cases[n_struct::max(1, len(cases) // 3)][:3]:
+        ctx.sample({'kind': 'wrapfile', 'case': c})
+    # composition: dependency() over the real Resolver loaded from generated wrap files
+    items = []
+    comp = []
+    for _ in range(4000 if ctx.tier == 'thorough' else ctx.scale(600, 1500)):
+        wfc, provides = WF.compose_case(rng)
+        w = rworld(rng)
+        w['provides'] = provides
+        w['wrapfiles'] = wfc['files']
+        reqs = [rreq(rng) for _ in range(rng.randint(1, 2))]
+        if rng.random() < 0.5:
+            reqs.append(dict(reqs[0]))
+        items.append((w, reqs))
+        comp.append((wfc, provides))
+    results = [x for part in pool_map(eval_chunk, items, 200) for x in part]
+    wres = [x for part in pool_map(wf_chunk, [c for c, _p in comp], 200) for x in part]
+    ctx.count(sum(len(r[0]) for r in results))
+    ctx.extra['composed_lookups_over_real_resolver'] = sum(len(r[0]) for r in results)
+    for (w, reqs), (res, hits, tags, _pol, _lines) in zip(items, results):
+        for t in tags:
+            ctx.tag('compose:' + t.split(':')[0])
+        for cls, msg, i in hits:
+            case = {'kind': 'dep', 'world': w, 'requests': reqs, 'at': i}
+            ctx.violation(vkey(cls, case), f'{cls} (provider tables from real wrap files): {msg}', case)
+    if ctx.model_available:
+        flat = [(w, reqs, k, res[k], lines[k]) for (w, reqs), (res, _h, _t, _pol, lines) in zip(items, results) for k in range(len(res))]
+        answers = ctx.driver('dep', [f[4] for f in flat])
+        for (w, reqs, k, canon, _line), ans in zip(flat, answers):
+            if norm_sub_error(canon) != norm_sub_error(ans):
+                ctx.disagreement({'kind': 'dep', 'world': w, 'requests': reqs, 'at': k, 'impl': canon, 'model': ans})
+        # the table the Lean lookup ran on is the one the Lean wrap-file model derives from the file texts
+        wans = ctx.driver('dep', [r[2] for r in wres])
+        for (wfc, provides), (canon, _h, _l), ans in zip(comp, wres, wans):
+            if canon != ans:
+                ctx.disagreement({'kind': 'wrapfile', 'case': wfc, 'impl': canon, 'model': ans})
+            want = ';'.join(sorted(WF.e(k) + '>' + WF.e(v[0]) for k, v in provides.items()))
+            got = ';'.join(sorted(ans.split('~')[2].split(';'))) if ans.count('~') >= 3 else ans
+            if want != got:
+                ctx.disagreement({'kind': 'wrapfile-provides', 'case': wfc, 'declared': provides, 'model': ans})
 
 
 def run_cache(ctx: Ctx) -> None:
@@ -893,13 +992,17 @@ def run(ctx: Ctx) -> None:
                 'twice (quick: 15000 sampled cells of the 22M-cell product incl. static: of override x default_library x static: of lookup; thorough/pin change: all), plus random worlds with two names and sequences <= 3 incl. '
                 'malformed arguments; (b) every corruption class {good, other valid archive, garbage, wrong top directory} x location '
                 '{packagefiles, cache, URL, fallback URL after failure, fallback URL after bad hash} x recorded hash {good, bogus, none} x '
-                '(no fault | one fault at each of 22 fault points (quick: 6 sampled) | nodownload), for source and patch, plus random cases with up to 8 faults. '
+                '(no fault | one fault at each of 22 fault points (quick: 6 sampled) | nodownload), for source and patch, plus random cases with up to 8 faults; '
+                '(d) 17 structured subprojects/ trees (one per clause of the [provide] section of the manual) + random trees: 1-4 wrap files from structural '
+                'descriptions with neutral text noise / text-level oddities, bare and ignored directories, redirect chains, nested subprojects/ merged, wrapdb.json; '
+                'lookups over the real Resolver loaded from generated wrap files. '
                 'Non-trivial = distinct model answers (outcome+effects+state), excluding argument errors.')
     witness_method_kwarg(ctx)
     run_dep(ctx)
     run_cache(ctx)
     run_e2e_reconfigure(ctx, ['pkg-path'] if ctx.tier != 'thorough' else ['pkg-path', 'cmake-path', 'clearcache', 'configure'])
     run_wrap(ctx)
+    run_wrapfiles(ctx)
     if ctx.tier == 'thorough':
         run_e2e(ctx)
     if ctx.tier == 'thorough' or ctx.deep:
@@ -935,6 +1038,8 @@ def search(ctx: Ctx, disagreements: T.List[dict]) -> None:
                     rs = [dict(r, static=rst) for r in reqs]
                     rs += [dict(rs[0], names=[n], static=rst) for n in names if n]
                     items.append((w2, rs[:6]))
+        elif d.get('kind') in ('wrapfile', 'wrapfile-provides'):
+            pass
         elif d.get('kind') == 'wrap':
             c = d['case']
             wraps.append(c)
@@ -957,6 +1062,19 @@ def search(ctx: Ctx, disagreements: T.List[dict]) -> None:
         for cls, msg, i in hits:
             case = {'kind': 'cache', 'ops': ops, 'at': i}
             ctx.violation(vkey(cls, case), f'{cls}: {msg}', case)
+    wfs = WF.structured_cases() + [WF.plain_case(rng) for _ in range(3000)]
+    for c, (_canon, hits, _l) in zip(wfs, [x for part in pool_map(wf_chunk, wfs, 100) for x in part]):
+        for cls, msg in hits:
+            case = {'kind': 'wrapfile', 'case': c}
+            ctx.violation(vkey(cls, case), f'{cls}: {msg}', case)
+    for _ in range(1500):
+        wfc, provides = WF.compose_case(rng)
+        w = rworld(rng)
+        w['provides'], w['wrapfiles'] = provides, wfc['files']
+        item = (w, [rreq(rng), rreq(rng)])
+        for cls, msg, i in eval_seq(item)[1]:
+            case = {'kind': 'dep', 'world': w, 'requests': item[1], 'at': i}
+            ctx.violation(vkey(cls, case), f'{cls} (provider tables from real wrap files): {msg}', case)
     wraps += [rcase(rng) for _ in range(600)]
     for c, (_canon, hits) in zip(wraps, [x for part in pool_map(wrap_chunk, wraps, 40) for x in part]):
         for cls, msg in hits:
@@ -982,6 +1100,14 @@ def replay(ctx: Ctx, rep: dict) -> None:
         if ctx.model_available:
             print('model :', ctx.driver('dep', [CA.enc_ops(case['ops'])])[0])
         for cls, msg, i in hits:
+            ctx.violation(vkey(cls, case), f'{cls}: {msg}', case)
+    elif case.get('kind') == 'wrapfile':
+        canon, hits, wline = WF.run_case(case['case'])
+        print('impl  :', canon)
+        print('oracle:', hits or 'ok')
+        if ctx.model_available:
+            print('model :', ctx.driver('dep', [wline])[0])
+        for cls, msg in hits:
             ctx.violation(vkey(cls, case), f'{cls}: {msg}', case)
     elif case.get('kind') == 'wrap':
         canon, hits = WR.run_case(case['case'])
